@@ -1,0 +1,72 @@
+// +build verif
+
+package client
+
+// Contracts for the verifier in /verif (comment-only; see /verif/DESIGN.md).
+
+/*@
+// Set when the client is built and never reassigned.
+immutable HTTPClient.hasherF by NewSimpleHTTPClient, NewHTTPClient, SetHasherFunction.$1
+immutable HTTPClient.log by NewSimpleHTTPClient, NewHTTPClient, SetLogger.$1
+
+// What a server (or whoever answers on its address) returns is arbitrary:
+// no postcondition on the body.
+func HTTPClient.callAny
+  modifies everything
+func HTTPClient.callPrimary
+  modifies everything
+func HTTPClient.doReq
+  modifies everything
+
+// ---- C12: decoding and verifying any answer never panics -----------------------
+// API-level assumptions: the configured hasher factory is pure and returns
+// hashers; digests handed to the client were produced by such a hasher.
+
+func HTTPClient.Membership
+  props C12
+  requires c.hasherF != nil && pure_fn(c.hasherF) && nonnil_fn(c.hasherF)
+  modifies everything
+  ensures result_1 == nil ==> result_0 != nil
+
+func HTTPClient.MembershipDigest
+  props C12
+  requires c.hasherF != nil && pure_fn(c.hasherF) && nonnil_fn(c.hasherF)
+  modifies everything
+  ensures result_1 == nil ==> result_0 != nil && result_0.HyperProof != nil
+  ensures result_1 == nil ==> len(result_0.HyperProof.Value) == int(hashlen_fn(c.hasherF))
+
+func HTTPClient.Incremental
+  props C12
+  requires c.hasherF != nil && pure_fn(c.hasherF) && nonnil_fn(c.hasherF)
+  modifies everything
+  ensures result_1 == nil ==> result_0 != nil && !isnil(result_0.Hasher)
+
+func HTTPClient.GetSnapshot
+  props C12
+  modifies everything
+  ensures result_1 == nil ==> result_0 != nil
+
+func HTTPClient.MembershipVerify
+  props C02 C12
+  requires proof != nil && snapshot != nil
+  requires len(eventDigest) < 8192
+  requires proof.HyperProof != nil ==> len(proof.HyperProof.Value) <= len(eventDigest) || len(proof.HyperProof.Value) >= 8 * len(eventDigest)
+  modifies everything
+  ensures C02/accept-implies-exists-and-ordered: result_0 ==> proof.Exists && proof.ActualVersion <= proof.QueryVersion
+
+func HTTPClient.MembershipAutoVerify
+  props C12
+  requires c.hasherF != nil && pure_fn(c.hasherF) && nonnil_fn(c.hasherF) && !isnil(c.log)
+  requires len(eventDigest) < 8192 && int(hashlen_fn(c.hasherF)) == 8 * len(eventDigest)
+  modifies everything
+
+func HTTPClient.IncrementalVerify
+  props C03 C12
+  requires proof != nil && startSnapshot != nil && endSnapshot != nil && !isnil(proof.Hasher)
+  modifies everything
+
+func HTTPClient.IncrementalAutoVerify
+  props C12
+  requires c.hasherF != nil && pure_fn(c.hasherF) && nonnil_fn(c.hasherF) && !isnil(c.log)
+  modifies everything
+@*/
